@@ -5,6 +5,7 @@ import Gmars.Model.Compile
 import Gmars.Spec.Legal88
 import Gmars.Proofs.LoadOK
 import Gmars.Proofs.CompileWF
+import Gmars.Proofs.AsmWF
 
 namespace Gmars.Props.C06
 open Gmars
@@ -42,6 +43,21 @@ theorem compile_88_legal {lexTokens : String → List Token} {cfg : Config} {lin
     (h : compile lexTokens cfg lines ameta = .ok (some w)) (h88 : cfg.mode = .icws88) :
     ∀ i ∈ w.code.toList, Spec.Legal88 i = true :=
   Compile.compile_88_legal h h88
+
+/-- the same for the whole assembler, for EVERY byte string: whenever `CompileWarrior` succeeds
+    (valid programs, near-valid mutations, token soup — anything), every field is below the core
+    size, the entry point lies inside the code (or is zero for an empty program), the program is
+    no longer than the maximum length, and under ICWS'88 every instruction is a legal '88
+    instruction with the implied modifier -/
+theorem assemble_wf {cfg : Config} {src : List UInt8} {w : WarriorData}
+    (h : assemble cfg src = .ok w) (h63 : cfg.coreSize.toNat < 2 ^ 63) :
+    (∀ i ∈ w.code.toList, i.a < cfg.coreSize ∧ i.b < cfg.coreSize) ∧
+    ((w.code.size = 0 ∧ w.start = 0) ∨ (0 ≤ w.start ∧ w.start < w.code.size)) ∧
+    w.code.size ≤ cfg.length.toNat ∧
+    (cfg.mode = .icws88 → ∀ i ∈ w.code.toList, Spec.Legal88 i = true) := by
+  obtain ⟨lines, ameta, hc⟩ := assemble_ok_from_compile h
+  obtain ⟨h1, h2, h3⟩ := Compile.compile_wf hc h63
+  exact ⟨h1, h2, h3, fun h88 => Compile.compile_88_legal hc h88⟩
 
 /-
   The 2^63 bound of `compile_wf` is tight: with coreSize = 3·2^62 (accepted by Validate) `int(m)`
